@@ -13,7 +13,10 @@ What the language keeps of Go: statement order, the `if err != nil { return … 
 which variable every call result lands in and which variable is handed to the next call (the key bytes vs the value
 bytes), which store method is called (`Get/Set/Delete`, the tail calls `Has/DeletePrefix/Clear`), error wrapping, and which
 value variable a `return` hands out (the zero-valued named result or the decoded value).
-`Iterate` / `IterateKeys` (closures) are not translated: hand-written model + skeleton obligations + differential run.
+`Iterate` is translated too: the consumer closure is a statement of its own, run once per entry by `iterLoopC` (the underlying
+store's iteration: entries in order, stops when the closure answers `false` or the store fails); the closure's write to the
+captured `innerErr` is an ordinary assignment of an error variable.  `IterateKeys` (the same loop without the value decode) is
+not translated: hand-written model + skeleton obligation + differential run.
 -/
 namespace Hive.Typed.SCode
 
@@ -62,33 +65,57 @@ inductive SStmt
   | retHas (inK : Nat)                        -- `return t.kv.Has(k)`
   | retDelPrefix                              -- `return t.kv.DeletePrefix(prefix)`
   | retClear                                  -- `return t.kv.Clear()`
+  -- `Iterate`: the store's iteration with the consumer closure, and the statements of the closure
+  | iter (keyP valP : Nat) (consumer : SStmt) (outE : Nat)
+                                              -- `e = t.kv.Iterate(prefix, func(key, value) bool { consumer }, direction...)`
+  | decKey (inY outK outE : Nat)              -- `k, _, e = t.bytesToKey(y)`
+  | setE (i : Nat) (e : SEExp)                -- `e_i = e` (the closure's write to the captured `innerErr`)
+  | retAdv (b : Bool)                         -- closure: `return false`
+  | retCb (k v : Nat)                         -- closure: `return callback(k, v)`
 deriving Repr
 
 variable {K V : Type}
 
-structure SM (V : Type) where
+structure SM (K V : Type) where
   st : Store
   y : Nat → Bytes
   v : Nat → V
+  kk : Nat → K
   e : Nat → SEV
   tr : List SEv
   ndec : Nat            -- decode calls made so far by this operation
+  acc : List (K × V)    -- the pairs handed to the caller's callback so far (`Iterate`)
 
 inductive SRet (V : Type)
   | v (x : V) (e : SEV)
   | b (x : Bool) (e : SEV)
   | e (e : SEV)
+  | adv (b : Bool)      -- what the consumer closure answers the store: go on / stop
 
-inductive SOutc (V : Type)
-  | cont (m : SM V)
-  | done (m : SM V) (r : SRet V)
+inductive SOutc (K V : Type)
+  | cont (m : SM K V)
+  | done (m : SM K V) (r : SRet V)
 
-def SM.setY (m : SM V) (i : Nat) (x : Bytes) : SM V := { m with y := fun j => if j = i then x else m.y j }
-def SM.setV (m : SM V) (i : Nat) (x : V) : SM V := { m with v := fun j => if j = i then x else m.v j }
-def SM.setE (m : SM V) (i : Nat) (x : SEV) : SM V := { m with e := fun j => if j = i then x else m.e j }
-def SM.log (m : SM V) (c : SCall) (r : CallRes) : SM V := { m with tr := m.tr ++ [⟨c, r⟩] }
+def SM.setY (m : SM K V) (i : Nat) (x : Bytes) : SM K V := { m with y := fun j => if j = i then x else m.y j }
+def SM.setV (m : SM K V) (i : Nat) (x : V) : SM K V := { m with v := fun j => if j = i then x else m.v j }
+def SM.setK (m : SM K V) (i : Nat) (x : K) : SM K V := { m with kk := fun j => if j = i then x else m.kk j }
+def SM.setE (m : SM K V) (i : Nat) (x : SEV) : SM K V := { m with e := fun j => if j = i then x else m.e j }
+def SM.log (m : SM K V) (c : SCall) (r : CallRes) : SM K V := { m with tr := m.tr ++ [⟨c, r⟩] }
 
-def evalSE : SEExp → SM V → SEV
+/-- The underlying store's `Iterate` over the entries `es` (entry `n` is the next one): it hands every entry to the
+consumer closure (`run`: the closure body on a machine whose parameters `keyP` / `valP` hold the raw key / value) until the
+closure answers `false`, the entries are exhausted, or the store itself fails (`kvAfter`).  `true`: the store failed. -/
+def iterLoopC (run : SM K V → SOutc K V) (kvAfter : Option Nat) (keyP valP : Nat) :
+    List (Bytes × Bytes) → Nat → SM K V → SM K V × Bool
+  | [], _, m => (m.log .kvIter .ok, false)
+  | e :: rest, n, m =>
+    if kvAfter = some n then (m.log .kvIter .fail, true)
+    else match run ((m.setY keyP e.1).setY valP e.2) with
+      | .done m' (.adv true) => iterLoopC run kvAfter keyP valP rest (n + 1) m'
+      | .done m' _ => (m'.log .kvIter .ok, false)
+      | .cont m' => (m'.log .kvIter .ok, false)
+
+def evalSE : SEExp → SM K V → SEV
   | .nil, _ => .nil
   | .var i, m => m.e i
   | .wrap e _, m => .wrap (evalSE e m)
@@ -97,13 +124,13 @@ def evalSE : SEExp → SM V → SEV
 def serrW (w : Bool) (e : SEV) : SEV := if w then .wrap (.wrap e) else e
 
 /-- Semantics; `key`, `value`, `pfx` are the method's parameters.  A failing call hands back zero values next to its error. -/
-def sexec [Inhabited V] (KC : Codec K) (VC : Codec V) (F : SFaults) (w : Bool) (key : K) (value : V) (pfx : Bytes) :
-    SStmt → SM V → SOutc V
+def sexec [Inhabited K] [Inhabited V] (KC : Codec K) (VC : Codec V) (F : SFaults) (w : Bool) (key : K) (value : V) (pfx : Bytes)
+    (bwd : Bool) (stop : Nat) : SStmt → SM K V → SOutc K V
   | .skip, m => .cont m
-  | .seq a b, m => match sexec KC VC F w key value pfx a m with
-    | .cont m' => sexec KC VC F w key value pfx b m'
+  | .seq a b, m => match sexec KC VC F w key value pfx bwd stop a m with
+    | .cont m' => sexec KC VC F w key value pfx bwd stop b m'
     | o => o
-  | .ifErr i a, m => if (m.e i).isNil then .cont m else sexec KC VC F w key value pfx a m
+  | .ifErr i a, m => if (m.e i).isNil then .cont m else sexec KC VC F w key value pfx bwd stop a m
   | .encKey oy oe, m => match encKF KC F key with
     | none => .cont (((m.setY oy []).setE oe (.inj .encK)).log .encK .fail)
     | some b => .cont (((m.setY oy b).setE oe .nil).log .encK .ok)
@@ -134,19 +161,40 @@ def sexec [Inhabited V] (KC : Codec K) (VC : Codec V) (F : SFaults) (w : Bool) (
     if F.kv1 then .done m (.e (serrW w (.inj .kv))) else .done { m with st := m.st.deletePrefix pfx } (.e .nil)
   | .retClear, m =>
     if F.kv1 then .done m (.e (serrW w (.inj .kv))) else .done { m with st := [] } (.e .nil)
+  | .iter kp vp c oe, m =>
+    if F.kv1 then .cont ((m.setE oe (serrW w (.inj .kv))).log .kvIter .fail)
+    else
+      let r := iterLoopC (sexec KC VC F w key value pfx bwd stop c) F.kvAfter kp vp (m.st.entries pfx bwd) 0 m
+      .cont (r.1.setE oe (if r.2 then serrW w (.inj .kv) else .nil))
+  | .decKey iy ok oe, m => match decAt KC F m.ndec (m.y iy) with
+    | none => .cont ({ ((m.setK ok default).setE oe (.inj .decK)).log .decK .fail with ndec := m.ndec + 1 })
+    | some x => .cont ({ ((m.setK ok x).setE oe .nil).log .decK .ok with ndec := m.ndec + 1 })
+  | .setE i e, m => .cont (m.setE i (evalSE e m))
+  | .retAdv b, m => .done m (.adv b)
+  | .retCb k v, m =>
+    let acc' := m.acc ++ [(m.kk k, m.v v)]
+    if acc'.length = stop then .done ({ m with acc := acc' }.log .cb .nc) (.adv false)
+    else .done ({ m with acc := acc' }.log .cb .ok) (.adv true)
 
-def sstart [Inhabited V] (st : Store) : SM V :=
-  { st := st, y := fun _ => [], v := fun _ => default, e := fun _ => .nil, tr := [], ndec := 0 }
+def sstart [Inhabited K] [Inhabited V] (st : Store) : SM K V :=
+  { st := st, y := fun _ => [], v := fun _ => default, kk := fun _ => default, e := fun _ => .nil, tr := [], ndec := 0, acc := [] }
 
 /-- From raw results to the model's `SOut` (what the harness's `errKind` / result printing does). -/
 def soutOf : SRet V → SOut K V
   | .v x e => if e.isNil then .val x else if e.isNotFound then .notfound else .err e.kind
   | .b x e => if e.isNil then .has x else .err e.kind
   | .e e => if e.isNil then .ok else .err e.kind
+  | .adv _ => .err .kv
 
-def sfinish [Inhabited V] : SOutc V → SRes K V
+def sfinish : SOutc K V → SRes K V
   | .done m r => ⟨m.st, soutOf r, m.tr⟩
   | .cont m => ⟨m.st, .err .kv, m.tr⟩       -- falling off the end of a function with results does not compile in Go
+
+/-- `Iterate`: the pairs handed to the callback and the returned error. -/
+def sfinishIter : SOutc K V → SRes K V
+  | .done m (.e e) => ⟨m.st, .iter m.acc (if e.isNil then none else some e.kind), m.tr⟩
+  | .done m _ => ⟨m.st, .err .kv, m.tr⟩
+  | .cont m => ⟨m.st, .err .kv, m.tr⟩
 
 structure SProg where
   get : SStmt
@@ -155,21 +203,22 @@ structure SProg where
   delete : SStmt
   deletePrefix : SStmt
   clear : SStmt
+  iterate : SStmt
 
-/-- One point operation of the translated code (`Iterate` is not translated: `none`). -/
+/-- One operation of the translated code. -/
 def sexecOp [Inhabited K] [Inhabited V] (w : Bool) (P : SProg) (KC : Codec K) (VC : Codec V) (m : Store) (op : SOp K V) (F : SFaults) :
-    Option (SRes K V) :=
+    SRes K V :=
   match op with
-  | .get k => some (sfinish (sexec KC VC F w k default [] P.get (sstart m)))
-  | .has k => some (sfinish (sexec KC VC F w k default [] P.has (sstart m)))
-  | .set k v => some (sfinish (sexec KC VC F w k v [] P.set (sstart m)))
-  | .delete k => some (sfinish (sexec KC VC F w k default [] P.delete (sstart m)))
-  | .iterate _ _ _ => none
+  | .get k => sfinish (sexec KC VC F w k default [] false 0 P.get (sstart m))
+  | .has k => sfinish (sexec KC VC F w k default [] false 0 P.has (sstart m))
+  | .set k v => sfinish (sexec KC VC F w k v [] false 0 P.set (sstart m))
+  | .delete k => sfinish (sexec KC VC F w k default [] false 0 P.delete (sstart m))
+  | .iterate pfx bwd stop => sfinishIter (sexec KC VC F w default default pfx bwd stop P.iterate (sstart m))
 
 /-- The pass-through methods: resulting store and reported error. -/
 def sexecPass [Inhabited K] [Inhabited V] (w : Bool) (KC : Codec K) (VC : Codec V) (body : SStmt) (m : Store) (pfx : Bytes) (F : SFaults) :
     Store × Option SErr :=
-  match sexec KC VC F w (default : K) (default : V) pfx body (sstart m) with
+  match sexec KC VC F w (default : K) (default : V) pfx false 0 body (sstart m) with
   | .done m' (.e e) => (m'.st, if e.isNil then none else some e.kind)
   | .done m' _ => (m'.st, some .kv)
   | .cont m' => (m'.st, some .kv)
